@@ -170,7 +170,7 @@ EXTRA5 = {
  'C05': ' R10: the decision to drop a table reads the schema the object still exists in, and an object\'s own table is dropped with it.',
  'C06': ' R9: the cardinality of a path takes every trailing hop into account.',
  'C07': ' R11: members of compound (union / intersection) types get their rewrites; R12: a range that was not asked for descendants reads one type.',
- 'C09': ' R13: a transaction-control unit that changes the compiler-side state is not cacheable; R14 = C17.R10: a worker remembers (LAST_STATE) only the state returned by a completed compile call, and it is the state it pickles into the reply.',
+ 'C09': ' R13: a transaction-control unit that changes the compiler-side state is not cacheable; R14 = C17.R10: a worker remembers (LAST_STATE) only the state returned by a completed compile call, and it is the state it pickles into the reply; R15: compile_in_tx applies the aliases and settings of the request after sync_tx on every path (a re-sync to a savepoint replaces the state).',
  'C10': ' R2: a dropped pointer releases its target on every path (no ownership test can skip the release).',
  'C12': ' R12: the common type of two collections hands one operand back only under an equality test of the two.',
  'C17': ' R9 also: no explicit raise precedes __sync__ in a worker entry point (an error reply acknowledges the transfer too); R10 = C09.R14; R11: a transfer computed against one worker\'s believed state is sent to that worker only (no rebinding of the worker reaches the call without a fresh computation).',
